@@ -135,6 +135,8 @@ class Interp:
         self.in_state = {}
         self.effects = {}      # (gid, idx) -> [Effect]
         self.calls = {}        # gid -> dict
+        self.out_states = {}   # (gid, succ gid) -> state leaving gid towards succ
+        self.optj = {}         # (join gid, key) -> (facts that hold only on the Some side, facts that hold only on the None side)
         self.unclassified = {}  # (gid) -> description
         self.prune_type_tests = prune_type_tests
         self.entry_args = entry_args
@@ -223,6 +225,10 @@ class Interp:
                 return self.project(v[1], rest[2:], ty)
             if v[0] == "checked" and rest[:2] == ("as:Some", "0") and len(rest) == 2:
                 return self.arith(v[1], v[2], v[3])
+            if v[0] == "optj" and rest[:2] == ("as:Some", "0"):
+                if len(rest) == 2:
+                    return v[3]
+                return self.project(v[3], rest[2:], ty)
             if v[0] == "nonnull_opt" and rest[:2] == ("as:Some", "0"):
                 # payload of `match NonNull::new(p) { Some(m) => m, .. }`: the pointer itself (the null test is the SWITCH on the discriminant)
                 if len(rest) == 2:
@@ -381,6 +387,13 @@ class Interp:
     def assign(self, st, path, ty, v):
         if isinstance(v, Tree):
             self.copy_tree(st, v.path, path)
+        elif isinstance(v, tuple) and len(v) == 3 and v[0] == "pair" and not isinstance(v[1], Tree) and not isinstance(v[2], Tree):
+            # (value, overflow-flag) and other scalar pairs are kept per component, so that a join inside a loop joins the components
+            self.kill_under(st, path)
+            self.explode_parents(st, path)
+            st.env.pop(path, None)
+            st.env[(path[0], path[1] + ("0",))] = v[1]
+            st.env[(path[0], path[1] + ("1",))] = v[2]
         else:
             self.store(st, path, v)
 
@@ -570,8 +583,13 @@ class Interp:
                     vb = as_poly(vb)
                 if isinstance(vb, Poly) and not isinstance(va, Poly):
                     va = as_poly(va)
+            oj = None if va == vb else self._opt_join(gid, k, va, vb, a, b)
             if va == vb:
                 env[k] = va
+            elif oj is not None:
+                env[k] = oj[0]
+                if oj[1]:
+                    changed = True
             else:
                 phi = ("phi", gid, k)
                 nv = Poly.atom(phi) if (isinstance(va, Poly) or isinstance(vb, Poly)) else phi
@@ -592,6 +610,56 @@ class Interp:
             changed = True
         return State(env, base, ver, facts), changed
 
+    def _opt_join(self, gid, k, va, vb, a, b):
+        """join of Some(x) with None (an Option built in two arms of a callee and returned): keep the payload and remember which facts hold on which
+        side, so that a later `match`/`if let` on the result recovers the condition under which it is Some. -> (value, side-table changed) or None"""
+        def kind(v):
+            if isinstance(v, tuple) and v:
+                if v[0] == "some" and not isinstance(v[1], Tree):
+                    return "some"
+                if v[0] == "none":
+                    return "none"
+                if v[0] == "optj" and v[1] == gid and v[2] == k:
+                    return "optj"
+            return None
+        ka, kb = kind(va), kind(vb)
+        if ka is None or kb is None or ka == kb:
+            return None
+        joined = a.facts & b.facts
+        old = self.optj.get((gid, k))
+        if ka == "optj" or kb == "optj":
+            if old is None:
+                return None
+            oj, other, ost = (va, vb, b) if ka == "optj" else (vb, va, a)
+            ko = kind(other)
+            sd, nd = old
+            if ko == "some":
+                if other[1] != oj[3]:
+                    return None
+                sd = sd & ost.facts
+            else:
+                nd = nd & ost.facts
+            sd, nd = sd - joined, nd - joined
+            self.optj[(gid, k)] = (sd, nd)
+            return oj, (sd, nd) != old
+        sv, sst, nst = (va, a, b) if ka == "some" else (vb, b, a)
+        new = (sst.facts - joined, nst.facts - joined)
+        self.optj[(gid, k)] = new
+        return ("optj", gid, k, sv[1]), new != old
+
+    def optj_facts(self, d, val, eq):
+        """facts implied by `discriminant(optj) == val` (eq) / `!= val`"""
+        if isinstance(d, Poly) and len(d.m) == 1:
+            (mono, c), = d.m.items()
+            if c == 1 and len(mono) == 1 and isinstance(mono[0], tuple) and mono[0][0] == "discr" and isinstance(mono[0][1], tuple) and mono[0][1][:1] == ("optj",):
+                oj = mono[0][1]
+                side = self.optj.get((oj[1], oj[2]))
+                if side is None or val not in (0, 1):
+                    return []
+                is_some = (val == 1) == eq
+                return list(side[0] if is_some else side[1])
+        return []
+
     def run(self):
         g = self.g
         entry = g.entry.bmap[0]
@@ -610,9 +678,17 @@ class Interp:
             outs = self.step(gid, st)
             for (succ, ost) in outs:
                 self.edges.add((gid, succ))
+                self.out_states[(gid, succ)] = ost
                 if succ not in self.in_state:
                     self.in_state[succ] = ost
                     work.add(succ)
+                elif len({pg for (pg, _k) in g.nodes[succ].preds}) == 1:
+                    # a node with one predecessor takes that predecessor's latest out-state (joining it with its own earlier visits would
+                    # turn every value computed inside a loop body into an opaque phi)
+                    cur = self.in_state[succ]
+                    if cur.env != ost.env or cur.base != ost.base or cur.ver != ost.ver or cur.facts != ost.facts:
+                        self.in_state[succ] = ost
+                        work.add(succ)
                 else:
                     js, ch = self.join(succ, self.in_state[succ], ost)
                     if ch:
@@ -755,13 +831,13 @@ class Interp:
                     val = int(vals[i])
                     if decided is not None and val != decided:
                         continue
-                    nf = self.switch_facts(d, val, True)
+                    nf = self.switch_facts(d, val, True) + self.optj_facts(d, val, True)
                 else:
                     if decided is not None and str(decided) in vals:
                         continue
                     nf = []
                     for vv in vals:
-                        nf += self.switch_facts(d, int(vv), False)
+                        nf += self.switch_facts(d, int(vv), False) + self.optj_facts(d, int(vv), False)
                     if isinstance(d, tuple) and d and d[0] in ("cmp", "not", "teq", "bcmp", "pcmp", "call", "typetest") and vals == ["0"]:
                         nf = bool_facts(d, True)
                 if ("false",) in nf:
@@ -1028,6 +1104,15 @@ class Interp:
                 if kinds is None or e.kind in kinds:
                     out.append(e)
         return out
+
+    def out_value(self, gid, key, succ=None):
+        """value of an environment cell when control leaves node gid (towards succ)"""
+        for (g, s_), st in self.out_states.items():
+            if g == gid and (succ is None or s_ == succ):
+                v = st.env.get(key)
+                if v is not None:
+                    return v
+        return None
 
     def effects_at(self, gid):
         out = []
